@@ -43,7 +43,8 @@ def upEcho (r : ConnResult) : Bytes :=
   -- the fixture's upgraded handler is only invoked when there is something to read; the line-wise
   -- fixture (interface `up.line`) echoes the complete lines and hands the unfinished one back
   if r.upgraded.isSome && !r.handedOver.isEmpty then
-    (if r.upgraded == some "up.line" then throughLastNewline r.handedOver else r.handedOver)
+    (if r.upgraded == some "up.line" || r.upgraded == some "up.segline" then throughLastNewline r.handedOver
+     else r.handedOver)
   else []
 
 def concClientObs (svc : Service) (cl : ConcClient) : Sx :=
@@ -54,7 +55,7 @@ def concClientObs (svc : Service) (cl : ConcClient) : Sx :=
     | none, true => "err"
     | none, false => "eof"
   let ref : Sx := .list [.atom "ref", .atom refStatus, .list (.atom "out" :: r.out.map ofReply),
-    bytesAtom (if r.upgraded == some "up.line" then throughLastNewline r.handedOver
+    bytesAtom (if r.upgraded == some "up.line" || r.upgraded == some "up.segline" then throughLastNewline r.handedOver
                else if r.upgraded.isSome then r.handedOver else [])]
   .list [.atom "c", .atom "t", .list (.atom "out" :: r.out.map ofReply), bytesAtom (upEcho r), .atom "f", ref]
 
